@@ -667,8 +667,12 @@ class OdeSystem(object):
 
     @dt.setter
     def dt(self, new_dt):
+        # keep the direction of the integration in progress: the sign of dt is set from the actual
+        # (target - current time) on entry to `integrate`, which may differ from the sign of (tf - t0)
+        current_sign = D.ar_numpy.sign(self.__dt)
         self.__dt = D.ar_numpy.asarray(new_dt, **self.__array_con_kwargs)
-        self.__fix_dt_dir(self.tf, self.t0)
+        if current_sign != 0 and D.ar_numpy.sign(self.__dt) != current_sign:
+            self.__dt = -self.__dt
         return self.__dt
 
     @property
@@ -903,6 +907,7 @@ class OdeSystem(object):
         self.__trim_soln_space()
         self.__sol = DenseOutput(None, None)
         self.dt = self.__dt0
+        self.__fix_dt_dir(self.tf, self.t0)
         self.equ_rhs.nfev = 0
         self.__int_status = 0
         if self.__events:
